@@ -233,8 +233,10 @@ def check_io(case, stats=None, scratch=None):
 
 @st.composite
 def st_warn_csv(draw):
-    in_policy = draw(st.sampled_from(['quoted', 'quoted', 'simple', 'quoted_rfc']))
+    in_policy = draw(st.sampled_from(['quoted', 'quoted', 'simple', 'quoted_rfc', 'whitespace']))
     dlm = draw(st.sampled_from([',', ';', '\t', '|']))
+    if in_policy == 'whitespace':
+        dlm = ' '
     out_policy = draw(st.sampled_from(['simple', 'quoted', 'simple']))
     out_dlm = draw(st.sampled_from([dlm, ',', '\t', ';', '::', ', ', ':=']))
     clean = draw(st.integers(0, 3)) == 0
@@ -249,6 +251,13 @@ def st_warn_csv(draw):
                 fields.append(draw(st.sampled_from(['a', 'b', 'x1', '', 'é', 'a b'])))
             else:
                 fields.append(draw(st.sampled_from(['a', 'b', '', 'x' + out_dlm[0] + 'y', 'x' + out_dlm + 'y', 'x' + out_dlm[0], out_dlm[-1] + 'y', '"q"', 'a"b', '"a%sb"' % dlm, '" x"', 'é', ' "s" ', '"un', ';', ','])))
+        if in_policy == 'whitespace':
+            # space-separated words; a blank (or spaces-only) line is a record without any field
+            fields = [draw(st.sampled_from(['a', 'b', 'x1', '\xe9', 'q"r', 'x' + out_dlm[0] + 'y'])) for _ in range(w)]
+            if not clean and draw(st.integers(0, 3)) == 0:
+                fields = []
+            lines.append(draw(st.sampled_from(['', ' ', '  '])) + draw(st.sampled_from([' ', '  '])).join(fields) + draw(st.sampled_from(['', ' '])))
+            continue
         lines.append(dlm.join(fields))
     comment = draw(st.sampled_from([None, None, '#', '//']))
     if comment is not None:
